@@ -273,12 +273,12 @@ func c10ProbeCounts(c *Ctx, r *Report) {
 	// callers: value used only under ok
 	const rule2 = "C10-b/ok-respected"
 	staticEval := map[string]bool{
-		pkg + ".EvalStaticStage":                          true,
-		"rare/pkg/expressions/stdlib.EvalStageInt":        true,
-		"rare/pkg/expressions/stdlib.EvalStageInt64":      true,
-		"rare/pkg/expressions/stdlib.EvalArgInt":          true,
-		"rare/pkg/expressions/stdlib.evalTypedStage":      true,
-		"rare/pkg/expressions/stdlib.mapTypedArgs":        true,
+		pkg + ".EvalStaticStage":                     true,
+		"rare/pkg/expressions/stdlib.EvalStageInt":   true,
+		"rare/pkg/expressions/stdlib.EvalStageInt64": true,
+		"rare/pkg/expressions/stdlib.EvalArgInt":     true,
+		"rare/pkg/expressions/stdlib.evalTypedStage": true,
+		"rare/pkg/expressions/stdlib.mapTypedArgs":   true,
 	}
 	for _, fi := range c.AllFuncDecls("rare/pkg/expressions", "rare/pkg/multiterm/termformat", "rare/cmd") {
 		info := fi.Pkg.TypesInfo
